@@ -15,15 +15,16 @@ import (
 // ---- the parameter-shape family shared by C04, C05 and C06
 
 type pcell struct {
-	Loc      string `json:"loc"`   // path query header cookie
-	Style    string `json:"style"` // "" = defaulted
-	Explode  *bool  `json:"explode"`
-	Shape    string `json:"shape"` // string int int64 float bool date datetime uuid arr:int arr:string obj
-	Required bool   `json:"required"`
-	Kind     string `json:"kind"` // styled json pass
-	Op       string `json:"op"`
-	Name     string `json:"name"`
-	Override bool   `json:"override"` // the path item declares a laxer parameter of the same name and location; the operation's declaration governs
+	Loc        string `json:"loc"`   // path query header cookie
+	Style      string `json:"style"` // "" = defaulted
+	Explode    *bool  `json:"explode"`
+	Shape      string `json:"shape"` // string int int64 float bool date datetime uuid arr:int arr:string obj
+	Required   bool   `json:"required"`
+	Kind       string `json:"kind"` // styled json pass
+	Op         string `json:"op"`
+	Name       string `json:"name"`
+	Override   bool   `json:"override"`              // the path item declares a laxer parameter of the same name and location; the operation's declaration governs
+	AllowEmpty bool   `json:"allow_empty,omitempty"` // allowEmptyValue: true (query only): the value may be empty, the parameter may still not be absent
 }
 
 func (c pcell) effStyle() string {
@@ -54,6 +55,9 @@ func (c pcell) key() string {
 	k := fmt.Sprintf("%s/%s/%s/%s/%v/%s", c.Loc, c.Style, e, c.Shape, c.Required, c.Kind)
 	if c.Override {
 		k += "/overrides-path-level"
+	}
+	if c.AllowEmpty {
+		k += "/allow-empty-value"
 	}
 	if c.Name != "" && c.Name != "p" && c.Name != "X-Param" {
 		k += "/name=" + c.Name
@@ -136,6 +140,10 @@ func paramCells(loc string) []pcell {
 		add(pcell{Style: "form", Explode: bp(true), Shape: "arr:int", Required: false, Kind: "styled", Name: "user_id"})
 		add(pcell{Style: "deepObject", Explode: bp(true), Shape: "obj", Required: false, Kind: "styled", Name: "user_filter"})
 		add(pcell{Shape: "string", Required: true, Kind: "styled", Name: "type"})
+		// required together with allowEmptyValue
+		add(pcell{Shape: "bool", Required: true, Kind: "styled", AllowEmpty: true})
+		add(pcell{Shape: "int", Required: true, Kind: "styled", AllowEmpty: true})
+		add(pcell{Shape: "obj", Required: true, Kind: "json", AllowEmpty: true})
 	case "header":
 		add(pcell{Shape: "string", Required: true, Kind: "styled", Name: "X-User-Id"})
 		add(pcell{Shape: "arr:int", Required: false, Kind: "styled", Name: "x-lower-case"})
@@ -183,6 +191,9 @@ func paramSpec(cells []pcell) []byte {
 		p := map[string]any{"name": c.Name, "in": c.Loc}
 		if c.Required {
 			p["required"] = true
+		}
+		if c.AllowEmpty {
+			p["allowEmptyValue"] = true
 		}
 		switch c.Kind {
 		case "styled":
